@@ -14,6 +14,15 @@ claim("C17", "exploration",
       "Trusts bash on PATH as the reference decoder; arguments are non-empty and NUL-free; harness links the fclones library built from /repo with the verif cfg (re-exports only).",
       "bounded-exhaustive enumeration + proptest random generation with round-trip and differential (bash) oracles", "DESIGN.md 4 C17")
 
+claim("C01", "exploration",
+      "Generated trees (near-duplicate pairs differing in one byte at stage-boundary offsets, sizes straddling prefix / 64 KiB buffer / suffix threshold, hard links, symlinks) x generated group configurations (7 hash functions, cache cold+warm, shrinking/keeping/expanding transforms in 5 I/O modes, prefix/suffix knobs, pinned SSD/HDD/unknown, thread specs); every reported path is read back by the harness and compared byte for byte, group length checked. A sample of the configuration space per run, shrunk counterexamples; no claim outside the explored cases.",
+      "Trusts: harness file reads, native re-implementation of the deterministic helper transforms (self-tested against the helper programs), the disk-kind pin hook. --skip-content-hash excluded by statement.",
+      "proptest-generated trees and configurations driving the real binary; oracle = direct byte comparison of reported members", "DESIGN.md 4 C01")
+claim("C03", "exploration",
+      "Generated trees with shared contents over several directories/roots, hard links, overlapping and repeated roots, path pairs whose components concatenate identically, x configurations (rf-over/rf-under/unique, transform, cache, hash fn, stage knobs, pinned device); report compared as a set of path-sets against a reference content partition + documented replica rule computed by the harness from its own walk. Detects missing, split, merged, duplicated and unselected entries within the explored sample.",
+      "Trusts the reference walk/partition model (plain names: no hidden files, ignore files or patterns - those are C09's) and the disk-kind pin hook.",
+      "proptest-generated trees/configurations; oracle = reference model (content partition + replica rule) compared set-wise", "DESIGN.md 4 C03")
+
 NOT_YET = "check not built yet in this round (planned: see DESIGN.md section 4); not claimed until it exists"
 
 hooks_commits = subprocess.run(["git","-C","/repo","log","--format=%H %s"],capture_output=True,text=True).stdout.splitlines()
